@@ -189,12 +189,21 @@ theorem euCycle_frame {app : App} {s s' : State} {i : Nat} {c : Int} {out : EuOu
                   · exact (euRun_frame h).pre ⟨rfl, rfl, rfl⟩
                   · cases h
 
+theorem wuCycle62_frame {s s' : State} {j : Nat} {before : Word} (h : wuCycle62 s j before = .ok s') : Frame s s' := by
+  unfold wuCycle62 at h
+  simp only [pure, Except.pure] at h
+  repeat' split at h
+  all_goals cases h
+  all_goals exact ⟨rfl, rfl, rfl⟩
+
 theorem wuCycle_frame {s s' : State} {j : Nat} {before : Word} (h : wuCycle s j before = .ok s') : Frame s s' := by
   unfold wuCycle at h
-  simp only [bind, Except.bind, pure, Except.pure] at h
   split at h
-  · cases h
-  · cases h; exact ⟨rfl, rfl, rfl⟩
+  · exact wuCycle62_frame h
+  · simp only [bind, Except.bind, pure, Except.pure] at h
+    split at h
+    · cases h
+    · cases h; exact ⟨rfl, rfl, rfl⟩
 
 theorem foldlM_wu_frame (before : Word) : ∀ (js : List Nat) (s s' : State),
     js.foldlM (fun s j => wuCycle s j before) s = .ok s' → Frame s s' := by
